@@ -16,15 +16,17 @@ Definition all_keys : list key := outer_keys ++ begin_keys ++ inner_keys ++ misc
 
 (* patch.py still has the shape the hand-written model of begin_patch/end_patch/patch assumes *)
 Definition patch_py_shape_b : bool :=
-  patch_loop_covers_all_args && patch_yield_in_try && patch_restores_reversed && end_patch_none_deletes
-  && begin_patch_absent_is_none && begin_patch_unloaded_no_token.
+  patch_loop_covers_all_args && patch_yield_in_try && patch_restores_reversed
+  && end_patch_missing_deletes_if_present && begin_patch_absent_is_missing && missing_is_private_sentinel
+  && begin_patch_unloaded_no_token.
 Lemma patch_py_shape_ok : patch_py_shape_b = true.
 Proof. vm_compute. reflexivity. Qed.
 
 Definition fstep_is_end (k : key) (x : fstep * bool) : bool :=
   match fst x with FEndPatch k' => key_eqb k k' | _ => false end.
 Definition fstep_tag (f : fstep) : nat :=
-  match f with FCython => 0 | FPathRemove => 1 | FEndPatch _ => 2 | FMetaRemove => 3 | FPurgeModules => 4 end.
+  match f with FCython => 0 | FPathRestore => 1 | FEndPatch _ => 2 | FMetaRemove => 3 | FPurgeModules => 4
+  | FUncapture => 5 | FPathRemove => 6 end.
 
 (* every restore is inside the finally; each begin_patch has its end_patch there; the hook, the
    path entry and the modules are removed there; the three lists and the directly assigned
@@ -36,6 +38,8 @@ Definition generated_lists_ok_b : bool :=
   && existsb (fun x => Nat.eqb (fstep_tag (fst x)) 1) finally_steps
   && existsb (fun x => Nat.eqb (fstep_tag (fst x)) 3) finally_steps
   && existsb (fun x => Nat.eqb (fstep_tag (fst x)) 4) finally_steps
+  && existsb (fun x => Nat.eqb (fstep_tag (fst x)) 5) finally_steps
+  && capture_started_recorded && path_saved_before_with
   && outer_with_covers_parse && exec_in_try && path_insert_in_try && catches_sysexit
   && meta_append_before_with
   && kmem k_chdir outer_keys && kmem k_abspath outer_keys && kmem k_exit inner_keys
@@ -113,7 +117,7 @@ Lemma begin_all_spec : forall ps base s s' bt,
   (forall k, In k (bkeys ps) -> tok_of s (token_for k bt) /\ incl (tkey (token_for k bt)) [k]) /\
   (forall k, ~ In k (bkeys ps) -> token_for k bt = None) /\
   (forall p g, In (p, g) ps -> target_ok p s = true ->
-               token_for (pkey p) bt = Some (pkey p, old_of (get (pkey p) s))).
+               token_for (pkey p) bt = Some (pkey p, get (pkey p) s)).
 Proof.
   induction ps as [|[p g] r IH]; intros base s s' bt H ND; cbn in H.
   - inversion H; subst. split; [apply frame_refl|]. split; [intros k []|]. split; [reflexivity|]. intros p g [].
@@ -135,7 +139,7 @@ Proof.
         rewrite token_for_tail by auto. destruct (T2 k Hk) as [A Bi]. split; auto.
         destruct (token_for k ts2) as [[k2 old]|]; cbn in *; auto.
         assert (k2 = k) by (destruct (Bi k2) as [E|[]]; [left; reflexivity|auto]). subst k2.
-        rewrite A. f_equal. apply Hget; exact Hk. }
+        rewrite A. apply Hget; exact Hk. }
     split.
     { intros k N. cbn in N. rewrite token_for_tail by (intros ->; apply N; left; reflexivity).
       apply N2. intros X; apply N; right; exact X. }
@@ -251,7 +255,7 @@ Lemma enter_parse_unfold : forall e s,
   | inl (s3, oldc) =>
       let '(s4, bt) := begin_all begin_patched begin_base s3 in
       let '(s6, it) := patch_enter inner_patched inner_base (with_meta (meta s4 ++ [e_hook e]) s4) in
-      inl (s6, mkToks oldc bt it)
+      inl (s6, mkToks oldc bt it (capture_started s) (path s4))
   end.
 Proof. intros; reflexivity. Qed.
 
